@@ -11,6 +11,7 @@ import (
 
 	"github.com/influxdata/kapacitor"
 	"github.com/influxdata/kapacitor/alert"
+	alertservice "github.com/influxdata/kapacitor/services/alert"
 	"github.com/influxdata/kapacitor/zz_sim/harness"
 	"github.com/influxdata/kapacitor/zz_sim/simrt"
 	bolt "go.etcd.io/bbolt"
@@ -33,7 +34,10 @@ type c08Scenario struct {
 	CrashAt    []int     `json:"crash_boundaries"`
 	Boundaries int       `json:"boundaries_in_base_run"`
 	IDByTag    bool      `json:"id_uses_a_tag_outside_the_group_by,omitempty"`
-	Config     string    `json:"config"`
+	// V1: the storage the daemon first opens on was written by a version that kept topic states in the version 1 layout
+	// (one record per topic in the alert store): topic -> host index -> level.  The first open migrates it.
+	V1     map[string]map[int]alert.Level `json:"states_left_in_v1_layout,omitempty"`
+	Config string                         `json:"config"`
 }
 
 // id of the alert for host h: the host tag alone, or prefixed with a tag that is not a group-by dimension
@@ -106,7 +110,30 @@ func c08Gen(c *Ctx) *c08Scenario {
 		}
 		sc.Hosts = append(sc.Hosts, vs)
 	}
+	if g.Chance(1, 4) {
+		sc.V1 = map[string]map[int]alert.Level{}
+		for _, t := range sc.Tasks {
+			for h := range sc.Hosts {
+				if !g.Bool() {
+					continue
+				}
+				// (the anonymous and the named topic of one node were left in agreement)
+				l := []alert.Level{alert.Info, alert.Warning, alert.Critical}[g.Intn(3)]
+				for _, tp := range t.topics() {
+					if sc.V1[tp] == nil {
+						sc.V1[tp] = map[int]alert.Level{}
+					}
+					sc.V1[tp][h] = l
+				}
+			}
+		}
+	}
 	return sc
+}
+
+// initial is the level topic tp holds for host h before the first point of the scenario.
+func (sc *c08Scenario) initial(tp string, h int) alert.Level {
+	return sc.V1[tp][h] // OK when absent
 }
 
 func (t c08Task) topics() []string {
@@ -188,6 +215,7 @@ type c08Life struct {
 	copyPath string
 	bounds   int
 	openB    int                               // storage boundaries passed while the daemon opened (migrations, versions)
+	preB     int                               // ... and before that, while the harness wrote what a previous version had left
 	restored map[string]map[string]alert.Level // as reported by the alert service right after open
 	final    map[string]map[string]alert.Level
 	verdict  Verdict
@@ -210,6 +238,24 @@ func c08Run(c *Ctx, sc *c08Scenario, cfg simrt.Config, path string, resume []int
 			life.verdict = Fail("harness/setup", "open store: %v", err)
 			return
 		}
+		if path == "" && len(sc.V1) > 0 {
+			dao, err := alertservice.NewTopicStateKV(st.Store(alertservice.AlertNameSpace))
+			if err != nil {
+				life.verdict = Fail("harness/setup", "v1 topic store: %v", err)
+				return
+			}
+			for _, tp := range simrt.Keys(sc.V1) {
+				ts := alertservice.TopicState{Topic: tp, EventStates: map[string]alertservice.EventState{}}
+				for h, l := range sc.V1[tp] {
+					ts.EventStates[sc.id(h)] = alertservice.EventState{Message: "from the previous version", Time: time.Unix(0, simrt.Epoch).Add(-time.Hour).UTC(), Level: l}
+				}
+				if err := dao.Put(ts); err != nil {
+					life.verdict = Fail("harness/setup", "v1 topic store: %v", err)
+					return
+				}
+			}
+		}
+		life.preB = st.Boundaries
 		st.CrashAt = crashAt
 		d, err := harness.NewDaemon(harness.DaemonOpts{Store: st, PersistTopics: true})
 		if err != nil {
@@ -217,6 +263,48 @@ func c08Run(c *Ctx, sc *c08Scenario, cfg simrt.Config, path string, resume []int
 			return
 		}
 		life.openB = st.Boundaries
+		// the three views of a topic (one id, all ids at or above a level, the topic's own level) are views of one state
+		views := func(when string) {
+			if life.verdict.Class != "" {
+				return
+			}
+			for _, tp := range topics {
+				max := alert.OK
+				per := map[string]alert.Level{}
+				for h := range sc.Hosts {
+					if es, ok, _ := d.Alert.EventState(tp, sc.id(h)); ok {
+						per[sc.id(h)] = es.Level
+						if es.Level > max {
+							max = es.Level
+						}
+					}
+				}
+				ts, ok, _ := d.Alert.TopicState(tp)
+				if !ok {
+					continue
+				}
+				if ts.Level != max {
+					life.verdict = Fail("topic/views-disagree", "%s: topic %s reports level %v, the highest level among its ids is %v (%v)", when, tp, ts.Level, max, per)
+					return
+				}
+				all, err := d.Alert.EventStates(tp, alert.OK)
+				if err != nil {
+					continue
+				}
+				for id, es := range all {
+					if l, ok := per[id]; !ok || l != es.Level {
+						life.verdict = Fail("topic/views-disagree", "%s: the event listing of topic %s shows id %s at %v, asked for on its own the id is at %v (known=%v)", when, tp, id, es.Level, l, ok)
+						return
+					}
+				}
+				for id, l := range per {
+					if es, ok := all[id]; !ok || es.Level != l {
+						life.verdict = Fail("topic/views-disagree", "%s: id %s of topic %s is at %v, the event listing of the topic shows %v (listed=%v)", when, id, tp, l, es.Level, ok)
+						return
+					}
+				}
+			}
+		}
 		// what the alert service restored, before any task runs
 		life.restored = map[string]map[string]alert.Level{}
 		for _, tp := range topics {
@@ -229,6 +317,7 @@ func c08Run(c *Ctx, sc *c08Scenario, cfg simrt.Config, path string, resume []int
 				}
 			}
 		}
+		views("right after the daemon opened")
 		bare := map[string]bool{}
 		for _, t := range sc.Tasks {
 			if t.Bare {
@@ -268,6 +357,7 @@ func c08Run(c *Ctx, sc *c08Scenario, cfg simrt.Config, path string, resume []int
 					// one point at a time: the next point is written once this one has been fully processed,
 					// so that "the remaining data" after a crash is well defined
 					simrt.WaitIdle()
+					views(fmt.Sprintf("after point #%d of id %s (value %d)", i, sc.id(h), vs[i]))
 					// the two topics of one node agree on an id as soon as the node has processed a point of it
 					// (levels are a function of the point, so both must show this point's level)
 					if life.verdict.Class == "" {
@@ -294,6 +384,7 @@ func c08Run(c *Ctx, sc *c08Scenario, cfg simrt.Config, path string, resume []int
 		done()
 		simrt.Fair()
 		simrt.WaitIdle()
+		views("at the end of the run")
 		life.final = map[string]map[string]alert.Level{}
 		for _, tp := range topics {
 			m := map[string]alert.Level{}
@@ -341,6 +432,15 @@ func runC08(c *Ctx) Verdict {
 		return base.verdict
 	}
 	sc.Boundaries = base.bounds
+	for _, t := range sc.Tasks {
+		for _, tp := range t.topics() {
+			for h := range sc.Hosts {
+				if got, want := base.restored[tp][sc.id(h)], sc.initial(tp, h); got != want {
+					return Fail("restore/level", "the storage left by the previous version holds level %v for topic %s id %s (version 1 layout); after the first start the alert service reports %v", want, tp, sc.id(h), got)
+				}
+			}
+		}
+	}
 	// uninterrupted final state must be the level of each host's last point
 	for _, t := range sc.Tasks {
 		for _, tp := range t.topics() {
@@ -354,7 +454,7 @@ func runC08(c *Ctx) Verdict {
 						sawNonOK = true
 					}
 				}
-				if !ok && !sawNonOK {
+				if !ok && !sawNonOK && sc.initial(tp, h) == alert.OK {
 					continue // never alerted: no event state
 				}
 				if got != want {
@@ -395,6 +495,16 @@ func runC08(c *Ctx) Verdict {
 		}
 		sort.Ints(positions)
 	}
+	if base.preB > 0 {
+		// (the boundaries passed while the harness prepared the previous version's storage are not moments of this daemon)
+		kept := positions[:0]
+		for _, b := range positions {
+			if b > base.preB {
+				kept = append(kept, b)
+			}
+		}
+		positions = kept
+	}
 	sc.CrashAt = positions
 	checkPos := func(b int) (Verdict, bool) {
 		l1 := c08Run(c, sc, cfg, "", zero, b)
@@ -432,11 +542,16 @@ func runC08(c *Ctx) Verdict {
 					// take the point in flight: points are written one at a time, so of host h's points everything before
 					// #acked-1 has been processed completely, and at most #acked is under way
 					dl := durable[tp][id]
+					if b <= base.openB && len(sc.V1) > 0 {
+						// the crash fell into the migration of the previous version's layout: the states are in the old
+						// layout, the new one, or both; what counts is what the restarted service makes of it
+						dl = sc.initial(tp, h)
+					}
 					allowed := map[alert.Level]bool{}
 					for k := l1.acked[h] - 1; k <= l1.acked[h]+1; k++ {
 						switch {
 						case k <= 0:
-							allowed[alert.OK] = true
+							allowed[sc.initial(tp, h)] = true
 						case k <= len(vs):
 							allowed[c08Level(vs[k-1])] = true
 						}
